@@ -158,6 +158,23 @@ def build_corpus(tier):
     ws.append(W("must_reject", "auto v = tainted<int*, M<@N>>::internal_factory(vb_gp); (void)v;", "tainted<int*>::internal_factory(raw)", group="private"))
     ws.append(W("must_reject", "auto v = %s.UNSAFE_unverified(); (void)v;" % lv("tainted_opaque", "int"), "tainted_opaque<int>.UNSAFE_unverified()", group="private"))
     ws.append(W("must_reject", "tainted_volatile<int, M<@N>> v; (void)v;", "constructing a tainted_volatile", group="private"))
+    # ---- the same operator forms on CONST operands (a const view of sandbox memory, fields behind a tainted<const S*>): an overload
+    # that exists only for const objects must wrap its result like its non-const twin
+    for wname in ("tainted", "tainted_volatile"):
+        for T in [t for t in types if "[" not in t and t != "VbW"]:
+            ca = "vb_lv<const %s<%s, M<@N>>>()" % (wname, T)
+            vol = wname == "tainted_volatile"
+            for op in BINOPS:
+                for rname, r in (("plain 1", "1"), ("tainted<int>", lv("tainted", "int"))):
+                    desc = "const %s<%s> %s %s" % (wname, T, op, rname)
+                    if op in CMPS and vol:
+                        ws.append(expr_w("%s %s %s" % (ca, op, r), desc + " [must be a hint]", want_hint=True, group="cmp-hint"))
+                    else:
+                        ws.append(expr_w("%s %s %s" % (ca, op, r), desc, group="binary"))
+            for u in ["-", "~", "+", "*", "&"]:
+                ws.append(expr_w("%s%s" % (u, ca), "%s const %s<%s>" % (u, wname, T), group="unary"))
+            ws.append(expr_w("!%s" % ca, "! const %s<%s>" % (wname, T), allow_bool=(wname == "tainted" and T in PTRLIKE), group="unary"))
+            ws.append(expr_w("%s[1]" % ca, "const %s<%s>[1]" % (wname, T), group="index"))
     # ---- callback arguments originate in the sandbox: a callback can only be registered if it receives them wrapped
     reg = "auto c = vb_lv<SB<@N>>().register_callback(vb_cb@N); (void)c;"
     cbd = lambda ret, params: "static %s vb_cb@N(%s);" % (ret, params)
